@@ -121,7 +121,7 @@ Theorem typeof_table : forall v,
                | VP (PBool _) => s_boolean
                | VP (PNum _) => s_number
                | VP (PStr _) => s_string
-               | VO o => if o_cls o =? 2 then s_function else s_object
+               | VO o => if (o_cls o =? 2) || (o_cls o =? 4) then s_function else s_object
                end.
 Proof. intros [[| | | |]|o]; reflexivity. Qed.
 
@@ -278,50 +278,30 @@ Qed.
 
 (* ---------- operand order of a + b ---------- *)
 
-(* a value whose conversion methods do not assign variables *)
-Definition meth_pure (m : meth) : Prop :=
-  match m with MNone => True | MDo setv _ => setv = None end.
-Definition value_pure (v : value) : Prop :=
-  match v with VP _ => True | VO o => meth_pure (o_vo o) /\ meth_pure (o_ts o) end.
-
-Lemma call_meth_vars : forall o w m st, meth_pure m ->
-  vars (snd (call_meth o w m st)) = vars st.
-Proof.
-  intros o w m st Hp. destruct m as [|setv r]; [reflexivity|].
-  cbn in Hp. subst setv. unfold call_meth, bind, logk, ret, throw. cbn.
-  destruct r; reflexivity.
-Qed.
-
-Lemma to_primitive_vars : forall h v st, value_pure v ->
-  vars (snd (to_primitive h v st)) = vars st.
-Proof.
-  intros h v st Hp. destruct v as [p|o]; [reflexivity|].
-  destruct Hp as [Hvo Hts]. unfold to_primitive, default_value.
-  set (hs := (h =? 1) || (h =? 0) && (o_cls o =? 1)).
-  destruct hs; unfold bind.
-  - pose proof (call_meth_vars o 1 (o_ts o) st Hts) as E1.
-    destruct (call_meth o 1 (o_ts o) st) as [[[p|]|t|] st1]; cbn [snd] in *; try assumption.
-    pose proof (call_meth_vars o 0 (o_vo o) st1 Hvo) as E2.
-    destruct (call_meth o 0 (o_vo o) st1) as [[[p|]|t|] st2]; cbn [snd] in *; unfold ret, throw; cbn [snd]; congruence.
-  - pose proof (call_meth_vars o 0 (o_vo o) st Hvo) as E1.
-    destruct (call_meth o 0 (o_vo o) st) as [[[p|]|t|] st1]; cbn [snd] in *; try assumption.
-    pose proof (call_meth_vars o 1 (o_ts o) st1 Hts) as E2.
-    destruct (call_meth o 1 (o_ts o) st1) as [[[p|]|t|] st2]; cbn [snd] in *; unfold ret, throw; cbn [snd]; congruence.
-Qed.
-
 (* otto's order (ToPrimitive of the left operand, then GetValue of the right
    variable) and the ES5 order (GetValue first) are indistinguishable whenever
-   the left operand's conversion does not write a variable and completes normally *)
-Theorem plus_getvalue_commutes : forall A (k : prim -> value -> M A) v n st,
-  value_pure v ->
-  (exists p st', to_primitive 0 v st = (Ok p, st')) ->
+   the left operand's conversion completes normally without writing a variable *)
+Theorem plus_getvalue_commutes : forall A (k : prim -> value -> M A) v n st p st',
+  to_primitive 0 v st = (Ok p, st') ->
+  vars st' = vars st ->
   nth_error (vars st) n <> None ->
   (lp <- to_primitive 0 v ;; rv <- getvar n ;; k lp rv) st =
   (rv <- getvar n ;; lp <- to_primitive 0 v ;; k lp rv) st.
 Proof.
-  intros A k v n st Hp [p [st' E]] Hn.
-  pose proof (to_primitive_vars 0 v st Hp) as Hv. rewrite E in Hv. cbn [snd] in Hv.
+  intros A k v n st p st' E Hv Hn.
   unfold bind, getvar. rewrite E. rewrite Hv.
   destruct (nth_error (vars st) n) as [rv|]; [|congruence].
   rewrite E. reflexivity.
+Qed.
+
+(* a sufficient syntactic condition: a method that assigns no variable leaves them all unchanged *)
+Definition meth_pure (m : meth) : Prop :=
+  match m with MDo (Some _) _ => False | _ => True end.
+
+Lemma call_meth_vars : forall h w m st, meth_pure m ->
+  vars (snd (call_meth h w m st)) = vars st.
+Proof.
+  intros h w m st Hp. destruct m as [|setv r| |r]; try reflexivity.
+  - destruct setv; [contradiction|]. unfold call_meth, bind, logk, ret, throw. cbn. destruct r; reflexivity.
+  - unfold call_meth. destruct r; reflexivity.
 Qed.
